@@ -591,7 +591,8 @@ func ruleC04_8(c *Ctx) {
 			// the value must be a yield parameter of an enclosing iterator, not a local function
 			isYield := false
 			for _, r := range c.P.Roots(call.Value, TraceOpts{NoParams: true}) {
-				if p, ok := r.(*ssa.Parameter); ok && p.Parent().Parent() != nil {
+				// (the parameter of an iterator: of a function literal, or of a method handed out as a bound method value)
+				if _, ok := r.(*ssa.Parameter); ok {
 					isYield = true
 				}
 			}
